@@ -4,7 +4,8 @@ Import ListNotations.
 Open Scope Z_scope.
 
 (* ---------- ops, actions ---------- *)
-Inductive op := OF (a b : Z) | OB (a b : Z) | ORM (i : Z) | OWM (i : Z) | ODM (i : Z) | OWFM (i : Z) | ODFM (i : Z).
+Inductive op := OF (a b : Z) | OB (a b : Z) | ORM (i : Z) | OWM (i : Z) | ODM (i : Z) | OWFM (i : Z) | ODFM (i : Z)
+  | ORD (i : Z) | OWD (i : Z).      (* Read_disk / Write_disk: DiskRevolve and PeriodicDiskRevolve *)
 
 Section CONV.
 Variable N : Z.        (* max_n *)
@@ -27,9 +28,12 @@ Definition conv1 (i : nat) (prev : option op) (o : op) (rest : list op) (c : cst
              | OWM w => if negb (w =? n0) then inr InvalidActionIndex else
                         inl ({| n_ := n1; r_ := r_ c; snaps := if mem w (snaps c) then snaps c else w :: snaps c;
                                 w_st := Some RAM; w_ics := true; w_adj := false; w_n0 := Some w |}, (true, false, RAM))
+             | OWD w => if negb (w =? n0) then inr InvalidActionIndex else
+                        inl ({| n_ := n1; r_ := r_ c; snaps := if mem w (snaps c) then snaps c else w :: snaps c;
+                                w_st := Some DISK; w_ics := true; w_adj := false; w_n0 := Some w |}, (true, false, DISK))
              | OWFM w => if negb (w =? n1) then inr InvalidActionIndex else
                         inl ({| n_ := n1; r_ := r_ c; snaps := snaps c; w_st := Some WORK; w_ics := false; w_adj := true; w_n0 := Some w |}, (false, true, WORK))
-             | OF a _ | OB a _ | ORM a | ODM a | ODFM a =>
+             | OF a _ | OB a _ | ORM a | ODM a | ODFM a | ORD a =>
                         inl ({| n_ := n1; r_ := r_ c; snaps := snaps c; w_st := Some WORK; w_ics := false; w_adj := false; w_n0 := Some a |}, (false, false, WORK))
              end) with
       | inr e => inr e
@@ -46,13 +50,17 @@ Definition conv1 (i : nat) (prev : option op) (o : op) (rest : list op) (c : cst
     if n0 =? N - r_ c - 1 then
       if negb (mem n0 (snaps c)) then inr KeyError else inl (upd c n0 (r_ c) (del n0 (snaps c)), [Move n0 RAM WORK])
     else inl (upd c n0 (r_ c) (snaps c), [Copy n0 RAM WORK])
-  | OWM n0 => if negb (n0 =? n_ c) then inr InvalidActionIndex else inl (c, [])
+  | ORD n0 =>
+    if n0 =? N - r_ c - 1 then
+      if negb (mem n0 (snaps c)) then inr KeyError else inl (upd c n0 (r_ c) (del n0 (snaps c)), [Move n0 DISK WORK])
+    else inl (upd c n0 (r_ c) (snaps c), [Copy n0 DISK WORK])
+  | OWM n0 | OWD n0 => if negb (n0 =? n_ c) then inr InvalidActionIndex else inl (c, [])
   | OWFM n0 =>
     if negb (n0 =? n_ c + 1) then inr InvalidActionIndex else
     match nth_error rest 2 with
     | None => inr IndexError
     | Some d =>
-      let dst := match d with ORM _ | OWM _ | ODM _ => Some RAM | OWFM _ | ODFM _ => Some WORK | _ => None end in
+      let dst := match d with ORM _ | OWM _ | ODM _ => Some RAM | OWFM _ | ODFM _ => Some WORK | ORD _ | OWD _ => Some DISK | _ => None end in
       let c' := {| n_ := n_ c; r_ := r_ c; snaps := snaps c; w_st := dst; w_ics := w_ics c; w_adj := w_adj c; w_n0 := w_n0 c |} in
       match d with
       | ODFM d0 => if d0 =? n0 then inl (c', []) else
@@ -133,7 +141,9 @@ Inductive Blk : bool -> Z -> Z -> Z -> list op -> Prop :=
 
 (* ---------- relation between converter state and executor state at block entry / exit ---------- *)
 Definition keys (x : xst) := map fst (store x).
-Definition sameset (a b : list Z) := forall z, In z a <-> In z b.
+(* ex: keys of checkpoints held elsewhere (on DISK, for the disk-revolve blocks); the converter's set also lists those *)
+Variable ex : list Z.
+Definition sameset (a b : list Z) := forall z, In z a <-> (In z b \/ In z ex).
 (* all stored checkpoints below o are intact, ranges start at their key *)
 Definition store_ok (x : xst) := NoDup (keys x) /\ forall p a b, lookup p (store x) = Some (a, b) -> a = p.
 
@@ -142,11 +152,13 @@ Definition Entry (wm : bool) (o l cm : Z) (c : cst) (x : xst) : Prop :=
   let h := o + l + 1 in
   0 <= o /\ 0 <= l /\ h <= N /\ n_ c = o /\ r_ c = N - h /\ rr x = N - h /\ fwd x = Some o /\ wdeps x = None /\
   endfwd x = negb (h =? N) /\
-  store_ok x /\ sameset (snaps c) (keys x) /\
+  store_ok x /\
+  (* the converter's set = RAM keys + external keys; when the block starts by writing o, a stale entry o may be listed *)
+  (forall z, (wm = true -> 1 <= l -> z <> o) -> (In z (snaps c) <-> (In z (keys x) \/ In z ex))) /\
   (forall p, In p (keys x) -> p < o \/ (p = o /\ wm = false /\ 1 <= l)) /\
   (if wm || (l =? 0) then ~ In o (keys x) /\ Z.of_nat (length (store x)) + cm <= R
    else (exists e, lookup o (store x) = Some (o, e) /\ h <= e) /\ Z.of_nat (length (store x)) - 1 + cm <= R) /\
-  (1 <= l -> 1 <= cm).
+  (1 <= l -> 1 <= cm) /\ (forall p, In p ex -> p < o).
 
 Definition Exit (o : Z) (c0 : cst) (x0 : xst) (c : cst) (x : xst) : Prop :=
   n_ c = o + 1 /\ r_ c = N - o /\ rr x = N - o /\ fwd x = Some (o + 1) /\ wdeps x = None /\ wics x = None /\ endfwd x = true /\
@@ -283,7 +295,7 @@ Definition wr_state (c : cst) (o n1 : Z) :=
 Lemma run_fwd_write i c o n1 : n_ c = o -> n1 <> N ->
   Runs i (Some (OWM o)) c [OF o n1] [Forward o n1 true false RAM] (wr_state c o n1) (OF o n1).
 Proof. intros H HN. apply Runs_one. intros rest. cbn [conv1]. rewrite H. bdestr. reflexivity. Qed.
-Definition is_plain (p : option op) := match p with Some (OF _ _) | Some (OB _ _) | Some (ORM _) | Some (ODM _) | Some (ODFM _) => True | _ => False end.
+Definition is_plain (p : option op) := match p with Some (OF _ _) | Some (OB _ _) | Some (ORM _) | Some (ODM _) | Some (ODFM _) | Some (ORD _) => True | _ => False end.
 Lemma run_fwd_plain i prev c o n1 : is_plain prev -> n_ c = o -> n1 <> N ->
   exists c', Runs i prev c [OF o n1] [Forward o n1 false false WORK] c' (OF o n1) /\ n_ c' = n1 /\ r_ c' = r_ c /\ snaps c' = snaps c.
 Proof.
@@ -367,26 +379,26 @@ Lemma head_ok wm o j l cm i prev c x : Entry wm o l cm c x -> 1 <= l -> 1 <= j <
      (forall p, In p (keys x1) -> p <= o) /\
      Z.of_nat (length (store x1)) - 1 + cm <= R /\ store x1 = (if wm then (o, (o, o+j)) :: store x else store x).
 Proof.
-  intros (Ho & Hl0 & Hh & Hn & Hr & Hrr & Hf & Hwd & Hef & [Hnd Hlk] & Hss & Hkeys & Hcp & Hcm) Hl Hj Hprev.
+  intros (Ho & Hl0 & Hh & Hn & Hr & Hrr & Hf & Hwd & Hef & [Hnd Hlk] & Hss & Hkeys & Hcp & Hcm & Hex) Hl Hj Hprev.
   assert (Hl0' : (l =? 0) = false) by (apply Z.eqb_neq; lia).
   assert (HjN : o + j <> N) by lia. unfold keys in *.
   destruct wm; cbn [orb] in Hcp; rewrite ?Hl0' in Hcp; cbn [wmop].
   - (* with Write_memory *)
     destruct Hcp as [Hnotin Hbud].
-    assert (Hmem : mem o (snaps c) = false).
-    { destruct (mem o (snaps c)) eqn:E; [|reflexivity]. apply mem_true_iff in E. apply Hss in E. tauto. }
     exists (wr_state c o (o+j)), {| fwd := Some (o+j); wics := None; wdeps := None; store := (o, (o, o+j)) :: store x; rr := rr x; endfwd := endfwd x |},
            (Forward o (o+j) true false RAM).
     split; [|split].
     + change [Forward o (o + j) true false RAM] with ([] ++ [Forward o (o + j) true false RAM]).
       eapply Runs_app; [apply run_wm; exact Hn|]. apply run_fwd_write; assumption.
     + apply exec_fwd_ram; try assumption; try lia. apply lookup_none_iff. exact Hnotin.
-    + unfold wr_state. rewrite Hmem. cbn [n_ r_ snaps fwd wics wdeps store rr endfwd keys map fst].
+    + unfold wr_state. cbn [n_ r_ snaps fwd wics wdeps store rr endfwd keys map fst].
       splits; auto; try lia.
       * split; unfold keys; cbn [store map fst lookup].
         -- constructor; assumption.
         -- intros p a b. destruct (Z.eqb_spec p o); [intros E; injection E as <- _; congruence|apply Hlk].
-      * intros z. cbn [In]. specialize (Hss z). tauto.
+      * intros z. destruct (Z.eq_dec z o) as [->|Hzo].
+        -- split; [intros _; left; left; reflexivity|intros _]. destruct (mem o (snaps c)) eqn:E; [apply mem_true_iff; exact E|left; reflexivity].
+        -- specialize (Hss z (fun _ _ => Hzo)). assert (Hoz : o <> z) by congruence. destruct (mem o (snaps c)); cbn [In]; tauto.
       * exists (o + j). cbn [lookup]. rewrite Z.eqb_refl. split; [reflexivity|]. split; [lia|discriminate].
       * intros p [<-|Hp]; [lia|]. destruct (Hkeys p Hp) as [?|(? & ? & ?)]; [lia|discriminate].
       * cbn [length]. specialize (Hcm Hl). lia.
@@ -398,20 +410,21 @@ Proof.
     split; [exact HR|]. split; [rewrite (exec_fwd_work x o (o+j) false) by (try assumption; try lia; discriminate); reflexivity|].
     cbn [fwd wics wdeps store rr endfwd keys]. rewrite Hs1. splits; auto; try lia.
     + split; assumption.
+    + intros z. apply Hss. discriminate.
     + exists e. split; [exact Hlo|]. split; [lia|intros _; lia].
     + intros p Hp. destruct (Hkeys p Hp) as [?|(? & ? & ?)]; lia.
 Qed.
 
 (* ---------- tail of a block: Read_memory o (a Move), last adjoint step, Discard_memory o ---------- *)
 Lemma tail_ok o i prev c x e : r_ c = N - o - 1 -> rr x = N - o - 1 -> o + 1 < N -> endfwd x = true -> wics x = None -> wdeps x = None ->
-  lookup o (store x) = Some (o, e) -> o + 1 <= e -> store_ok x -> sameset (snaps c) (keys x) ->
+  lookup o (store x) = Some (o, e) -> o + 1 <= e -> store_ok x -> sameset (snaps c) (keys x) -> (forall p, In p ex -> p < o) ->
   exists acts c' x', Runs i prev c (tail0 o) acts c' (ODM o) /\ execs x acts = Some x' /\
     n_ c' = o + 1 /\ r_ c' = N - o /\ rr x' = N - o /\ fwd x' = Some (o+1) /\ wdeps x' = None /\ wics x' = None /\ endfwd x' = true /\
     store x' = remove o (store x) /\ sameset (snaps c') (keys x').
 Proof.
-  intros Hr Hrr HoN Hef Hwi Hwd Hlo He [Hnd Hlk] Hss. unfold keys in *.
+  intros Hr Hrr HoN Hef Hwi Hwd Hlo He [Hnd Hlk] Hss Hex. unfold keys in *.
   assert (Hin : In o (map fst (store x))) by (eapply lookup_some_in; eauto).
-  assert (Hmem : mem o (snaps c) = true) by (apply mem_true_iff, Hss; exact Hin).
+  assert (Hmem : mem o (snaps c) = true) by (apply mem_true_iff, Hss; left; exact Hin).
   pose (c1 := upd c o (r_ c) (del o (snaps c))).
   destruct (adj_runs (i + 1) (Some (ORM o)) c1 o eq_refl ltac:(cbn; lia)) as (c2 & HR2 & Hn2 & Hr2 & Hs2).
   pose (x1 := {| fwd := Some o; wics := Some (o, e); wdeps := None; store := remove o (store x); rr := rr x; endfwd := true |}).
@@ -424,7 +437,8 @@ Proof.
   - rewrite app_nil_r. cbn [app execs].
     rewrite (exec_load x o e true) by (try assumption; lia). exact HX2.
   - cbn [r_ c1 upd] in Hr2. splits; auto; try lia.
-    intros z. rewrite Hs2, Hst2. cbn [snaps c1 upd store x1]. rewrite in_del, (keys_remove _ o Hnd z). specialize (Hss z). tauto.
+    intros z. rewrite Hs2, Hst2. cbn [snaps c1 upd store x1]. rewrite in_del, (keys_remove _ o Hnd z). specialize (Hss z).
+    destruct (Z.eq_dec z o) as [->|Hzo]; [split; [tauto|intros [H|H]; [tauto|apply Hex in H; lia]]|tauto].
 Qed.
 
 (* ---------- the cm = 1 loop ---------- *)
@@ -485,7 +499,7 @@ Proof.
   induction 1 as [wm o cm | wm o cm Hcm | wm o l Hl | wm o l cm j s1 s2 Hl Hcm Hj Hb1 IH1 Hb2 IH2];
     intros i prev c x HE Hprev.
   - (* l = 0 *)
-    destruct HE as (Ho & _ & Hh & Hn & Hr & Hrr & Hf & Hwd & Hef & Hso & Hss & Hkeys & Hcp & _).
+    destruct HE as (Ho & _ & Hh & Hn & Hr & Hrr & Hf & Hwd & Hef & Hso & Hss & Hkeys & Hcp & _ & Hex).
     replace (o + 0 + 1) with (o + 1) in * by lia.
     rewrite orb_true_r in Hcp. destruct Hcp as [Hnotin Hbud].
     destruct (adj_runs i prev c o Hn ltac:(lia)) as (c1 & HR1 & Hn1 & Hr1 & Hs1).
@@ -494,10 +508,10 @@ Proof.
     + eapply Runs_app; [exact HR1|]. apply run_dm. cbn [adj length]. lia.
     + rewrite app_nil_r. exact HX1.
     + unfold Exit. rewrite (remove_notin _ _ Hnotin), Hs1. splits; auto; try lia.
-      unfold sameset, keys in *. rewrite Hst1. exact Hss.
+      unfold sameset, keys in *. rewrite Hst1. intros z. apply Hss. intros _ Hl0. lia.
   - (* l = 1 *)
     pose proof HE as HE0.
-    destruct HE as (Ho & _ & Hh & Hn & Hr & Hrr & Hf & Hwd & Hef & Hso & Hss & Hkeys & Hcp & _).
+    destruct HE as (Ho & _ & Hh & Hn & Hr & Hrr & Hf & Hwd & Hef & Hso & Hss & Hkeys & Hcp & _ & Hex).
     replace (o + 1 + 1) with (o + 2) in * by lia.
     destruct (head_ok wm o 1 1 cm i prev c x HE0 ltac:(lia) ltac:(lia) ltac:(intros E; apply Hprev; [exact E|lia]))
       as (c1 & x1 & a & HR1 & HX1 & Hn1 & Hr1 & Hrr1 & Hf1 & Hwd1 & Hwi1 & Hef1 & Hso1 & Hss1 & (e & Hlo1 & He1 & _) & Hk1 & Hb1 & Hst1).
@@ -518,7 +532,7 @@ Proof.
       cbn [orb] in Hcp. tauto.
   - (* cm = 1, l >= 2 *)
     pose proof HE as HE0.
-    destruct HE as (Ho & _ & Hh & Hn & Hr & Hrr & Hf & Hwd & Hef & Hso & Hss & Hkeys & Hcp & _).
+    destruct HE as (Ho & _ & Hh & Hn & Hr & Hrr & Hf & Hwd & Hef & Hso & Hss & Hkeys & Hcp & _ & Hex).
     destruct (head_ok wm o l l 1 i prev c x HE0 ltac:(lia) ltac:(lia) ltac:(intros E; apply Hprev; [exact E|lia]))
       as (c1 & x1 & a & HR1 & HX1 & Hn1 & Hr1 & Hrr1 & Hf1 & Hwd1 & Hwi1 & Hef1 & Hso1 & Hss1 & (e & Hlo1 & He1 & _) & Hk1 & Hbud1 & Hst1).
     set (i1 := (i + length (wmop wm o ++ [OF o (o + l)]))%nat).
@@ -544,7 +558,7 @@ Proof.
       cbn [orb] in Hcp. replace (l =? 0) with false in Hcp by (symmetry; apply Z.eqb_neq; lia). tauto.
   - (* split *)
     pose proof HE as HE0.
-    destruct HE as (Ho & _ & Hh & Hn & Hr & Hrr & Hf & Hwd & Hef & Hso & Hss & Hkeys & Hcp & Hcm1).
+    destruct HE as (Ho & _ & Hh & Hn & Hr & Hrr & Hf & Hwd & Hef & Hso & Hss & Hkeys & Hcp & Hcm1 & Hex).
     destruct (head_ok wm o j l cm i prev c x HE0 ltac:(lia) ltac:(lia) ltac:(intros E; apply Hprev; [exact E|lia]))
       as (c1 & x1 & a & HR1 & HX1 & Hn1 & Hr1 & Hrr1 & Hf1 & Hwd1 & Hwi1 & Hef1 & Hso1 & Hss1 & (e & Hlo1 & He1 & He1') & Hk1 & Hbud1 & Hst1).
     set (i1 := (i + length (wmop wm o ++ [OF o (o + j)]))%nat).
@@ -554,7 +568,8 @@ Proof.
       splits; auto; try lia.
       - rewrite Hef1. exact Hef.
       - intros p Hp. left. specialize (Hk1 p Hp). lia.
-      - intros Hin. specialize (Hk1 _ Hin). lia. }
+      - intros Hin. specialize (Hk1 _ Hin). lia.
+      - intros p Hp. specialize (Hex p Hp). lia. }
     { discriminate. }
     destruct HEx2 as (Hn2 & Hr2 & Hrr2 & Hf2 & Hwd2 & Hwi2 & Hef2 & Hst2 & Hss2).
     assert (Hst2' : store x2 = store x1).
@@ -575,7 +590,8 @@ Proof.
         cbn [n_ r_ snaps c3 upd fwd wdeps endfwd store rr x3].
         splits; auto; try lia.
         - unfold store_ok, keys. cbn [store x3]. eapply store_ok_remove; [split; [exact Hnd2|exact Hlk2]|reflexivity].
-        - intros z. rewrite in_del, (keys_remove _ o Hnd2 z). specialize (Hss2 z). tauto.
+        - intros z _. rewrite in_del, (keys_remove _ o Hnd2 z). specialize (Hss2 z).
+          destruct (Z.eq_dec z o) as [->|Hzo]; [split; [tauto|intros [Hq|Hq]; [tauto|apply Hex in Hq; lia]]|tauto].
         - intros p Hp. apply (keys_remove _ o Hnd2 p) in Hp. destruct Hp as [Hp Hne]. rewrite Hst2' in Hp. specialize (Hk1 p Hp). left; lia.
         - intros Hp. apply (keys_remove _ o Hnd2 o) in Hp. tauto.
         - rewrite length_remove by exact Hin. rewrite Hst2'. lia. }
@@ -583,7 +599,7 @@ Proof.
       destruct HEx4 as (Hn4 & Hr4 & Hrr4 & Hf4 & Hwd4 & Hwi4 & Hef4 & Hst4 & Hss4).
       exists ([a] ++ acts2 ++ [Move o RAM WORK] ++ acts4), c4, x4, last4. split; [|split].
       * rewrite app_assoc. eapply Runs_app; [exact HR1|]. eapply Runs_app; [exact HR2|].
-        eapply Runs_app; [apply run_rm_move; [lia|apply mem_true_iff, Hss2; exact Hin]|exact HR4].
+        eapply Runs_app; [apply run_rm_move; [lia|apply mem_true_iff, Hss2; left; exact Hin]|exact HR4].
       * cbn [app execs]. rewrite HX1. rewrite execs_app, HX2. cbn [app execs].
         rewrite (exec_load x2 o e true) by (try assumption; try lia; rewrite Hst2'; exact Hlo1). exact HX4.
       * unfold Exit. splits; auto; try lia.
